@@ -75,6 +75,16 @@ class B:
                 scope["decls"].append(self.mktype(t))
                 taken.add(t)
                 self.feats.add("local-type-shadows")
+        if allow_procs and scope.get("k") == "subroutine" and "dummy_proc_shadows" not in self.excl:
+            # a dummy procedure (declared by an interface body) named like an abstract interface of the pools:
+            # inside the procedure `procedure(name)` means the dummy
+            for a in ABSI:
+                if a not in taken and ch.bool(1, 5):
+                    scope["args"].append(a)
+                    scope["decls"].append({"d": "interface", "form": "explicit", "doc": None, "bodies": [
+                        {"k": "subroutine", "name": a, "args": [], "prefix": [], "decls": [], "doc": None}]})
+                    taken.add(a)
+                    self.feats.add("dummy-proc-shadows-absint")
         if allow_procs:
             for p in PROCS:
                 if p not in taken and ch.bool(1, 5):
@@ -258,7 +268,7 @@ def gen_case(ch: Chooser, excl=()):
             if not ch.bool(2, 3) or n == node["name"]:
                 continue        # (a reference to the scope's own name would be a recursive call)
             cls = "type" if n in TYPES else ("proc" if n in PROCS else "absint")
-            ent = sem.resolve(s, n, [cls])
+            ent = sem.resolve(s, n, [cls] if cls != "absint" else ["proc", "absint"])
             # the name might be visible as another class (never in this generator: pools are disjoint)
             r = {"scope": list(path), "ifbody": None, "name": n, "expect": ent, "multi": decl_count.get(n, 0) >= 2 or
                  (ent is None and decl_count.get(n, 0) >= 1)}
